@@ -11,6 +11,10 @@ import RuxModel.Model.Chain
     serve <variant>             -> ok|ab <trace> st=<status> ;; idx=<cursor>     (ab: somebody aborted)
                                    chain = g ++ p ++ r ++ [m]; `variant` only selects HOW the harness
                                    registers the same chain on the real router (ignored here)
+    servef <variant> <k>        -> the same answer as `serve`: the harness serves the request over a connection
+                                   whose writes fail from the k-th on. No action of these chains looks at the
+                                   result of a write (`http.Error`, used by AbortWithStatus(c, msg), ignores it),
+                                   so a broken connection changes nothing the property talks about.
     lim <g1> <g2> <pre> <u> <v> -> accept <n> | reject <step>
                                    NewRoute.Use(pre) ; AddRoute inside groups with g1 + g2 middleware ;
                                    route.Use(u)
@@ -18,6 +22,7 @@ import RuxModel.Model.Chain
   <acts>: comma separated, `-` = none:  e<t> emit, n Next(), a Abort(), t AbortThen(), s<c> AbortWithStatus(c),
           x<c> AbortWithStatus(c, msg), i<t> record IsAborted(), c<c> SetStatus(c), w<t> write chunk t,
           b<t> marker t; the real handler additionally swaps c.Resp for a transparent buffering writer until it returns
+          R Next() called by a recovery middleware (defer/recover around it); nothing panics in these chains, so it is `n`
   <trace>: comma separated: E<h> L<h> M<h>.<t> P<h>.<t>.<0|1> A<h> S<h>.<c> W<h>.<t>
 -/
 namespace Rux.Drv.ChainE
@@ -33,6 +38,7 @@ structure ChainSt where
 def parseAct (s : String) : Option Act :=
   match s.toList with
   | ['n'] => some .next
+  | ['R'] => some .next
   | ['a'] => some .abort
   | ['t'] => some .abortThen
   | c :: rest =>
@@ -96,6 +102,10 @@ def chainStep (s : ChainSt) : List String → ChainSt × String
   | ["r", a] => match parseActs a with | some h => ({ s with r := s.r ++ [h] }, "ok") | none => (s, "bad-op")
   | ["m", a] => match parseActs a with | some h => ({ s with m := some h }, "ok") | none => (s, "bad-op")
   | ["serve", v] => match v.toNat? with | some _ => (s, chainServe s) | none => (s, "bad-op")
+  | ["servef", v, k] =>
+    match v.toNat?, k.toNat? with
+    | some _, some _ => if k.length ≤ 6 then (s, chainServe s) else (s, "bad-op")
+    | _, _ => (s, "bad-op")
   | ["lim", g1, g2, pre, u, v] =>
     match g1.toNat?, g2.toNat?, pre.toNat?, u.toNat?, v.toNat? with
     | some g1, some g2, some pre, some u, some _ => (s, chainLim g1 g2 pre u)
